@@ -186,6 +186,137 @@ theorem getD_take (v : List Rat) (k i : Nat) (d : Rat) (h : i < k) : (v.take k).
 theorem getD_drop (v : List Rat) (k j : Nat) (d : Rat) : (v.drop k).getD j d = v.getD (k + j) d := by
   simp [List.getD_eq_getElem?_getD, List.getElem?_drop]
 
+/-! ### the three input forms -/
+
+/-- a dict `{node: temperature}` with natural keys, as Python hands it over -/
+def toKV (kv : List (Nat × Rat)) : List (Int × Rat) := kv.map fun e => ((e.1 : Int), e.2)
+
+/-- the same temperatures as a vector: `d` where no temperature is given -/
+def seedsArray (n : Nat) (kv : List (Nat × Rat)) (d : Rat) : List Rat :=
+  tab n fun i => ((kv.find? fun e => e.1 == i).map (·.2)).getD d
+
+theorem lastAt_none {n : Nat} : ∀ {kv : List (Nat × Rat)} {i : Nat}, (∀ e, e ∈ kv → e.1 < n) →
+    (∀ e, e ∈ kv → e.1 ≠ i) → lastAt n (toKV kv) i = none
+  | [], _, _, _ => rfl
+  | (k, x) :: rest, i, hk, h => by
+    have ih := lastAt_none (kv := rest) (i := i) (fun e he => hk e (by simp [he])) (fun e he => h e (by simp [he]))
+    have hki : k ≠ i := h (k, x) (by simp)
+    have hp := pyIndex_nonneg (hk (k, x) (by simp))
+    simp only [toKV, List.map_cons, lastAt] at ih ⊢
+    rw [ih]
+    simp [hp, hki]
+
+theorem lastAt_mem {n : Nat} : ∀ {kv : List (Nat × Rat)}, (∀ e, e ∈ kv → e.1 < n) → (kv.map (·.1)).Nodup →
+    ∀ {k : Nat} {x : Rat}, (k, x) ∈ kv → lastAt n (toKV kv) k = some x
+  | [], _, _, _, _, hm => by cases hm
+  | (k0, x0) :: rest, hk, hnd, k, x, hm => by
+    simp only [List.map_cons, List.nodup_cons] at hnd
+    simp only [toKV, List.map_cons, lastAt]
+    rcases List.mem_cons.1 hm with heq | hin
+    · cases heq
+      have hnone : lastAt n (toKV rest) k0 = none :=
+        lastAt_none (fun e he => hk e (by simp [he])) (fun e he hek => hnd.1 (hek ▸ List.mem_map_of_mem (f := (·.1)) he))
+      simp only [toKV] at hnone
+      rw [hnone]
+      simp [pyIndex_nonneg (hk (k0, x0) (by simp))]
+    · have ih := lastAt_mem (kv := rest) (fun e he => hk e (by simp [he])) hnd.2 hin
+      simp only [toKV] at ih
+      rw [ih]
+
+theorem ext_getD {n : Nat} {l1 l2 : List Rat} (h1 : l1.length = n) (h2 : l2.length = n)
+    (h : ∀ i, i < n → l1.getD i 0 = l2.getD i 0) : l1 = l2 := by
+  apply List.ext_getElem (by rw [h1, h2])
+  intro i hi1 hi2
+  have := h i (h1 ▸ hi1)
+  simpa [List.getD_eq_getElem?_getD, hi1, hi2] using this
+
+/-- a dict with distinct in-range keys: every temperature reaches its node, the other nodes get the default -/
+theorem getValues_dict_nodup {n : Nat} {kv : List (Nat × Rat)} {d : Rat} (hne : kv ≠ [])
+    (hk : ∀ e, e ∈ kv → e.1 < n) (hnd : (kv.map (·.1)).Nodup) :
+    ∃ r, getValues n (.dict (toKV kv)) d = .ok r ∧ r.length = n ∧
+      (∀ e, e ∈ kv → r.getD e.1 0 = e.2) ∧ (∀ i, i < n → (∀ e, e ∈ kv → e.1 ≠ i) → r.getD i 0 = d) := by
+  have hex : ∃ r, getValues n (.dict (toKV kv)) d = .ok r := by
+    unfold getValues
+    have : (toKV kv).isEmpty = false := by
+      cases kv with
+      | nil => exact absurd rfl hne
+      | cons e rest => rfl
+    simp only [this]
+    apply assign_ok_of_keys
+    intro e he
+    obtain ⟨e0, he0, rfl⟩ := List.mem_map.1 he
+    simp [pyIndex_nonneg (hk e0 he0)]
+  obtain ⟨r, hr⟩ := hex
+  obtain ⟨hl, hv⟩ := getValues_dict hr
+  refine ⟨r, hr, hl, fun e he => ?_, fun i hi hno => ?_⟩
+  · rw [hv e.1 (hk e he), lastAt_mem hk hnd (k := e.1) (x := e.2) he]; rfl
+  · rw [hv i hi, lastAt_none hk hno]; rfl
+
+/-- … and that vector is the array form of the same temperatures -/
+theorem getValues_dict_eq_array {n : Nat} {kv : List (Nat × Rat)} {d : Rat} (hne : kv ≠ [])
+    (hk : ∀ e, e ∈ kv → e.1 < n) (hnd : (kv.map (·.1)).Nodup) :
+    getValues n (.dict (toKV kv)) d = .ok (seedsArray n kv d) := by
+  obtain ⟨r, hr, hl, hin, hout⟩ := getValues_dict_nodup (d := d) hne hk hnd
+  rw [hr]
+  congr 1
+  apply ext_getD hl (by simp [seedsArray])
+  intro i hi
+  simp only [seedsArray, tab_getD, hi, if_true]
+  cases hf : kv.find? (fun e => e.1 == i) with
+  | some e =>
+    have hm := List.mem_of_find?_eq_some hf
+    have hp := List.find?_some hf
+    simp only [beq_iff_eq] at hp
+    subst hp
+    simpa using hin e hm
+  | none =>
+    have hno : ∀ e, e ∈ kv → e.1 ≠ i := by
+      intro e he
+      have := List.find?_eq_none.1 hf e he
+      simpa using this
+    simpa using hout i hi hno
+
+theorem getValues_array {n : Nat} {l : List Rat} (d : Rat) (h : l.length = n) : getValues n (.arr l) d = .ok l := by
+  simp [getValues, h]
+
+/-- two descriptions of the temperatures that `get_values` (default value −1, as everywhere in this pipeline)
+    cannot tell apart -/
+def SameValues (n : Nat) (v v' : Values) : Prop :=
+  v.isNone = v'.isNone ∧ getValues n v (-1) = getValues n v' (-1)
+
+theorem SameValues.refl (n : Nat) (v : Values) : SameValues n v v := ⟨rfl, rfl⟩
+
+theorem sameValues_list_arr (n : Nat) (l : List Rat) : SameValues n (.list l) (.arr l) := ⟨rfl, rfl⟩
+
+theorem sameValues_dict_arr {n : Nat} {kv : List (Nat × Rat)} (hne : kv ≠ [])
+    (hk : ∀ e, e ∈ kv → e.1 < n) (hnd : (kv.map (·.1)).Nodup) :
+    SameValues n (.dict (toKV kv)) (.arr (seedsArray n kv (-1))) := by
+  refine ⟨rfl, ?_⟩
+  rw [getValues_dict_eq_array hne hk hnd, getValues_array _ (by simp [seedsArray])]
+
+theorem stackValues_congr {nRow nCol : Nat} {vr vr' vc vc' : Values}
+    (h1 : SameValues nRow vr vr') (h2 : SameValues nCol vc vc') :
+    stackValues nRow nCol vr vc (-1) = stackValues nRow nCol vr' vc' (-1) := by
+  unfold stackValues
+  simp only [h1.1, h2.1]
+  cases hr : vr'.isNone <;> cases hc : vc'.isNone <;> simp [h1.2, h2.2]
+
+theorem getAdjacencyValues_congr {nRow nCol nnz : Nat} {B : Nat → Nat → Rat} {a a' : Args}
+    (hv : SameValues nRow a.values a'.values) (hr : SameValues nRow a.valuesRow a'.valuesRow)
+    (hc : SameValues nCol a.valuesCol a'.valuesCol) (hf : a.forceBipartite = a'.forceBipartite) :
+    getAdjacencyValues nRow nCol nnz B a = getAdjacencyValues nRow nCol nnz B a' := by
+  unfold getAdjacencyValues
+  simp only [hv.1, hr.1, hc.1, hf, hv.2, stackValues_congr hr hc,
+    stackValues_congr hv (SameValues.refl nCol .none)]
+
+theorem fit_congr {algo : Algo} {nRow nCol nnz : Nat} {B : Nat → Nat → Rat} {a a' : Args} {nIter : Int} {α : Rat}
+    (hv : SameValues nRow a.values a'.values) (hr : SameValues nRow a.valuesRow a'.valuesRow)
+    (hc : SameValues nCol a.valuesCol a'.valuesCol) (hf : a.forceBipartite = a'.forceBipartite)
+    (hi : a.init = a'.init) :
+    fit algo nRow nCol nnz B a nIter α = fit algo nRow nCol nnz B a' nIter α := by
+  unfold fit
+  rw [getAdjacencyValues_congr hv hr hc hf, hi]
+
 /-! ### the shape of `fit` -/
 
 theorem fit_ok {algo : Algo} {nRow nCol nnz : Nat} {B : Nat → Nat → Rat} {a : Args} {nIter : Int} {α : Rat}
